@@ -308,18 +308,19 @@ func dumpMapUpdates(w *World, pkg string) {
 
 // storeMapDiscipline (C16.6): a save into one of the in-memory stores' maps never silently
 // replaces what an earlier completed save stored. Every map update in a tmmemstore method is one of
-//   accumulate  — the value is append(<same map>[<same key>], new...) (collections: proposed and
-//                 replayed headers of a height keep every entry),
-//   refuse      — the update is unreachable once a lookup of the same map and key reported
-//                 "present" (the method returns its overwrite / already-exists error instead),
-//   record      — the action store's per-round record, rewritten in place (fields guarded by C16.2),
-//   by design   — the three methods whose contract is replacement (table below, one line each).
+//
+//	accumulate  — the value is append(<same map>[<same key>], new...) (collections: proposed and
+//	              replayed headers of a height keep every entry),
+//	refuse      — the update is unreachable once a lookup of the same map and key reported
+//	              "present" (the method returns its overwrite / already-exists error instead),
+//	record      — the action store's per-round record, rewritten in place (fields guarded by C16.2),
+//	by design   — the three methods whose contract is replacement (table below, one line each).
 func storeMapDiscipline(r *Run, rule string) {
 	w := r.W
 	byDesign := map[string]string{
-		"tmmemstore.CommittedHeaderStore.SaveCommittedHeader":    "the committed-header store keeps the latest header per height (single writer: the kernel's commit path, C01.3)",
-		"tmmemstore.RoundStore.OverwriteRoundPrevoteProofs":      "contract: replaces the round's prevote collection with a superset computed by the kernel",
-		"tmmemstore.RoundStore.OverwriteRoundPrecommitProofs":    "contract: replaces the round's precommit collection with a superset computed by the kernel",
+		"tmmemstore.CommittedHeaderStore.SaveCommittedHeader": "the committed-header store keeps the latest header per height (single writer: the kernel's commit path, C01.3)",
+		"tmmemstore.RoundStore.OverwriteRoundPrevoteProofs":   "contract: replaces the round's prevote collection with a superset computed by the kernel",
+		"tmmemstore.RoundStore.OverwriteRoundPrecommitProofs": "contract: replaces the round's precommit collection with a superset computed by the kernel",
 	}
 	n := 0
 	for _, fn := range w.FuncsInPkg("tmstore/tmmemstore") {
@@ -629,4 +630,426 @@ func positionPersistedAfterMove(r *Run, rule string) {
 	if n < 3 {
 		r.Fail(rule, "census", "", fmt.Sprintf("only %d kernel call sites of the position-moving kState methods found (3 expected)", n))
 	}
+}
+
+// decidePrecommitTriggers (C08.9): the strategy is asked for its precommit only on one of the
+// Tendermint triggers. Every site that sends a DecidePrecommitRequest lies, on every path, behind
+// one of: a prevote majority for a single target, precommit power present at or above a Byzantine
+// threshold, the prevote-delay step in the timer handler, or the AwaitingPrecommits classification
+// at round entry. "Every validator has prevoted" without a majority for one target is not a
+// trigger (the prevote delay has to run).
+func decidePrecommitTriggers(r *Run, rule string) {
+	w := r.W
+	alts := []G{
+		{Name: "prevote-majority", Pattern: "($s.PrevoteBlockPower[$s.MostVotedPrevoteHash] < @tmconsensus.ByzantineMajority($s.AvailablePower))", Holds: false},
+		{Name: "precommit-majority-present", Pattern: "($s.TotalPrecommitPower < @tmconsensus.ByzantineMajority($s.AvailablePower))", Holds: false},
+		{Name: "precommit-minority-present", Pattern: "($s.TotalPrecommitPower < @tmconsensus.ByzantineMinority($s.AvailablePower))", Holds: false},
+		{Name: "prevote-delay-elapsed", Pattern: "($r.S == %tsi.StepPrevoteDelay)", Holds: true},
+		{Name: "entry-classification", Pattern: "(@tsi.GetStepFromVoteSummary($...) == %tsi.StepAwaitingPrecommits)", Holds: true},
+	}
+	n := 0
+	ord := Ord{}
+	for _, fn := range w.FuncsInPkg("tmengine/internal/tmstate") {
+		if !w.IsProd(fn) || fn.Parent() != nil || w.Folded(fn) {
+			continue
+		}
+		a := w.A(fn)
+		for _, s := range a.Sends() {
+			if !strings.HasSuffix(TypeName(s.Val.Type()), "tsi.DecidePrecommitRequest") {
+				continue
+			}
+			n++
+			which := ""
+			for _, g := range alts {
+				e, _ := a.IfEdges(g.Pattern, g.Holds, nil)
+				if len(e) > 0 && a.EveryPathTakes(s.Instr, e) {
+					which = g.Name
+					break
+				}
+			}
+			r.Check(which != "", rule, ord.Next(FuncName(fn)+"#decide-precommit"), w.InstrPos(s.Instr),
+				"the precommit decision is requested only behind a Tendermint trigger (prevote majority for one target / precommit power at a threshold / prevote delay elapsed / entry classification); established: "+which)
+		}
+	}
+	if n < 6 {
+		r.Fail(rule, "census", "", fmt.Sprintf("%d DecidePrecommitRequest send sites found, 6 confirmed by reading", n))
+	}
+}
+
+// ---- C06.6 reset completeness of recycled views
+
+// resetPaths collects the receiver-relative field paths a reset method clears: stores of constants /
+// zero values / re-slices of the field itself, clear(field), and reset methods called on the
+// receiver or on one of its fields (followed, depth <= 3).
+func resetPaths(w *World, fn *ssa.Function, prefix string, depth int, out map[string]bool) {
+	if fn == nil || depth > 3 {
+		return
+	}
+	a := w.A(fn)
+	rel := func(s string) (string, bool) {
+		if s == "p0" {
+			return prefix, true
+		}
+		if strings.HasPrefix(s, "p0.") && !strings.ContainsAny(s, "([") {
+			p := strings.TrimPrefix(s, "p0.")
+			if prefix != "" {
+				p = prefix + "." + p
+			}
+			return p, true
+		}
+		return "", false
+	}
+	a.Instrs(func(in ssa.Instruction) {
+		switch x := in.(type) {
+		case *ssa.Store:
+			if p, ok := rel(a.sh.Of(x.Addr).String()); ok && p != "" {
+				v := a.sh.Of(x.Val)
+				if v.K == "const" || strings.HasPrefix(v.String(), "zero:") || v.String() == "nil" || v.K == "slice" {
+					out[p] = true
+				}
+			}
+		case *ssa.Call:
+			_, n := calleeName(&x.Call)
+			if n == "clear" && len(x.Call.Args) == 1 {
+				if p, ok := rel(a.sh.Of(x.Call.Args[0]).String()); ok && p != "" {
+					out[p] = true
+				}
+				return
+			}
+			if cal := x.Call.StaticCallee(); cal != nil && strings.Contains(strings.ToLower(cal.Name()), "reset") && len(x.Call.Args) >= 1 {
+				if p, ok := rel(a.sh.Of(x.Call.Args[0]).String()); ok {
+					resetPaths(w, cal, p, depth+1, out)
+				}
+			}
+		}
+	})
+}
+
+// leafPaths lists the field paths of a struct type, descending into the nested view structs.
+func leafPaths(t types.Type, prefix string, out *[]string) {
+	st, ok := t.Underlying().(*types.Struct)
+	if !ok {
+		*out = append(*out, prefix)
+		return
+	}
+	tn := typeBaseName(t)
+	descend := prefix == "" || tn == "RoundView" || tn == "VoteSummary" || tn == "CommitProof"
+	if !descend {
+		*out = append(*out, prefix)
+		return
+	}
+	for i := 0; i < st.NumFields(); i++ {
+		f := st.Field(i)
+		p := f.Name()
+		if prefix != "" {
+			p = prefix + "." + p
+		}
+		leafPaths(f.Type(), p, out)
+	}
+}
+
+func resetCompleteness(r *Run, rule string) {
+	w := r.W
+	// kept on purpose by the same-height variants (documented on the methods)
+	keepSameHeight := []string{"Height", "ValidatorSet", "PrevCommitProof", "AvailablePower", "VoteSummary.AvailablePower", "RoundView.Height", "RoundView.ValidatorSet", "RoundView.PrevCommitProof", "RoundView.VoteSummary.AvailablePower"}
+	for _, m := range []struct {
+		fn, typ string
+		same    bool
+	}{
+		{"tmconsensus.VoteSummary.ResetForSameHeight", "tmconsensus.VoteSummary", true},
+		{"tmconsensus.VoteSummary.Reset", "tmconsensus.VoteSummary", false},
+		{"tmconsensus.RoundView.ResetForSameHeight", "tmconsensus.RoundView", true},
+		{"tmconsensus.RoundView.Reset", "tmconsensus.RoundView", false},
+		{"tmconsensus.VersionedRoundView.ResetForSameHeight", "tmconsensus.VersionedRoundView", true},
+		{"tmconsensus.VersionedRoundView.Reset", "tmconsensus.VersionedRoundView", false},
+	} {
+		fn := w.Fn(m.fn)
+		nt := w.LookupType(m.typ)
+		if fn == nil || nt == nil {
+			r.Fail(rule, m.fn, "", "reset method or its type not found")
+			continue
+		}
+		got := map[string]bool{}
+		resetPaths(w, fn, "", 0, got)
+		var leaves []string
+		leafPaths(nt, "", &leaves)
+		var missing []string
+		for _, l := range leaves {
+			covered := false
+			for p := range got {
+				if l == p || strings.HasPrefix(l, p+".") {
+					covered = true
+				}
+			}
+			if covered {
+				continue
+			}
+			kept := false
+			if m.same {
+				for _, k := range keepSameHeight {
+					if l == k || strings.HasPrefix(l, k+".") {
+						kept = true
+					}
+				}
+			}
+			if !kept {
+				missing = append(missing, l)
+			}
+		}
+		r.Check(len(missing) == 0, rule, m.fn, w.Pos(fn.Pos()), fmt.Sprintf("a recycled view starts its next round empty: %d field paths cleared; not cleared: %v", len(got), missing))
+	}
+}
+
+// ---- buffer aliasing (C14.5, C01.12 = C05.10)
+
+var aliasPreserving = map[string]bool{"bytes.TrimSuffix": true, "bytes.TrimPrefix": true, "bytes.TrimSpace": true, "bytes.TrimRight": true, "bytes.TrimLeft": true, "bytes.Trim": true, "bytes.TrimFunc": true, "slices.Clip": true}
+
+// sliceAliases: v and everything that shares its backing array inside the function.
+func sliceAliases(v ssa.Value) map[ssa.Value]bool {
+	out := map[ssa.Value]bool{v: true}
+	work := []ssa.Value{v}
+	for len(work) > 0 {
+		x := work[len(work)-1]
+		work = work[:len(work)-1]
+		refs := x.Referrers()
+		if refs == nil {
+			continue
+		}
+		for _, ref := range *refs {
+			var nv ssa.Value
+			switch y := ref.(type) {
+			case *ssa.Slice:
+				if y.X == x {
+					nv = y
+				}
+			case *ssa.Phi:
+				nv = y
+			case *ssa.ChangeType:
+				nv = y
+			case *ssa.Call:
+				if _, n := calleeName(&y.Call); aliasPreserving[n] && len(y.Call.Args) > 0 && y.Call.Args[0] == x {
+					nv = y
+				}
+			case *ssa.Store:
+				// spilled local: follow loads of a local variable cell
+				if al, ok := y.Addr.(*ssa.Alloc); ok && y.Val == x && al.Referrers() != nil {
+					for _, r2 := range *al.Referrers() {
+						if ld, ok := r2.(*ssa.UnOp); ok && ld.Op == token.MUL && !out[ld] {
+							out[ld] = true
+							work = append(work, ld)
+						}
+					}
+				}
+			}
+			if nv != nil && !out[nv] {
+				out[nv] = true
+				work = append(work, nv)
+			}
+		}
+	}
+	return out
+}
+
+// retainsParam: does fn keep its idx-th parameter (a slice) beyond the call — stored into a field,
+// element, map or channel, or handed to a module function that does (depth <= 2)?
+func retainsParam(w *World, fn *ssa.Function, idx, depth int) bool {
+	if fn == nil || fn.Blocks == nil || idx >= len(fn.Params) || depth > 2 || !strings.HasPrefix(pkgPathOf(fn), "github.com/gordian-engine/gordian") {
+		return false
+	}
+	al := sliceAliases(fn.Params[idx])
+	ret := false
+	for _, b := range fn.Blocks {
+		for _, in := range b.Instrs {
+			switch x := in.(type) {
+			case *ssa.Store:
+				if al[x.Val] {
+					if _, local := x.Addr.(*ssa.Alloc); !local {
+						ret = true
+					}
+				}
+			case *ssa.MapUpdate:
+				if al[x.Value] {
+					ret = true
+				}
+			case *ssa.Send:
+				if al[x.X] {
+					ret = true
+				}
+			case *ssa.Call:
+				if cal := x.Call.StaticCallee(); cal != nil {
+					for i, a := range x.Call.Args {
+						if al[a] && retainsParam(w, cal, i, depth+1) {
+							ret = true
+						}
+					}
+				}
+			}
+		}
+	}
+	return ret
+}
+
+// implementersOf: concrete module methods an interface invoke may dispatch to.
+func implementersOf(w *World, c *ssa.CallCommon) []*ssa.Function {
+	var out []*ssa.Function
+	if !c.IsInvoke() {
+		return nil
+	}
+	iface, ok := c.Value.Type().Underlying().(*types.Interface)
+	if !ok {
+		return nil
+	}
+	for _, fn := range w.AllFuncs {
+		if fn.Name() != c.Method.Name() || fn.Signature.Recv() == nil || fn.Blocks == nil {
+			continue
+		}
+		rt := fn.Signature.Recv().Type()
+		if types.Implements(rt, iface) || types.Implements(types.NewPointer(rt), iface) {
+			out = append(out, fn)
+		}
+	}
+	return out
+}
+
+// bufferAliasing: a slice that shares the backing array of a bytes.Buffer (Bytes(), re-sliced or
+// trimmed, never copied) must not outlive the buffer's next use: it is not returned from a function
+// whose buffer goes back to a sync.Pool, and it is not retained (stored, or passed to a callee that
+// keeps it — e.g. a signature proof keeps its message) while the same buffer is reset or written
+// again afterwards. pkgs limits the functions inspected.
+func bufferAliasing(r *Run, rule string, pkgs ...string) {
+	w := r.W
+	inScope := func(fn *ssa.Function) bool {
+		if !w.IsProd(fn) {
+			return false
+		}
+		if len(pkgs) == 0 {
+			return true
+		}
+		for _, p := range pkgs {
+			if strings.HasSuffix(pkgPathOf(fn), p) {
+				return true
+			}
+		}
+		return false
+	}
+	sites, bad := 0, 0
+	for _, fn := range w.AllFuncs {
+		if !inScope(fn) || fn.Blocks == nil {
+			continue
+		}
+		k := 0
+		for _, b := range fn.Blocks {
+			for _, in := range b.Instrs {
+				c, ok := in.(*ssa.Call)
+				if !ok {
+					continue
+				}
+				if _, n := calleeName(&c.Call); n != "bytes.Buffer.Bytes" || len(c.Call.Args) == 0 {
+					continue
+				}
+				sites++
+				buf := c.Call.Args[0]
+				pooled := false
+				if ta, ok := buf.(*ssa.TypeAssert); ok {
+					if pc, ok := ta.X.(*ssa.Call); ok {
+						if _, n := calleeName(&pc.Call); n == "sync.Pool.Get" {
+							pooled = true
+						}
+					}
+				}
+				// is the same buffer reset / written again after this point?
+				reused := false
+				if refs := buf.Referrers(); refs != nil {
+					for _, ref := range *refs {
+						rc, ok := ref.(ssa.Instruction)
+						if !ok || rc == in {
+							continue
+						}
+						cc := callCommon(rc)
+						if cc == nil {
+							continue
+						}
+						_, n := calleeName(cc)
+						isWrite := n == "bytes.Buffer.Reset" || strings.HasPrefix(n, "bytes.Buffer.Write") || n == "bytes.Buffer.Truncate"
+						if !isWrite {
+							// handed to a writer (fmt.Fprintf(buf, ...), scheme.Write*(buf, ...))
+							for _, a := range cc.Args {
+								if mi, ok := a.(*ssa.MakeInterface); ok && mi.X == buf {
+									isWrite = true
+								}
+							}
+						}
+						if isWrite && ReachesAfter(in, rc) {
+							reused = true
+						}
+					}
+				}
+				// a buffer passed by MakeInterface elsewhere: also look at its interface boxes
+				al := sliceAliases(c)
+				reported := map[ssa.Instruction]bool{}
+				fail := func(what string, at ssa.Instruction) {
+					if reported[at] {
+						return
+					}
+					reported[at] = true
+					k++
+					bad++
+					r.Fail(rule, fmt.Sprintf("%s#buffer-alias%d", FuncName(topParent(fn)), k), w.InstrPos(at), what)
+				}
+				for v := range al {
+					refs := v.Referrers()
+					if refs == nil {
+						continue
+					}
+					for _, ref := range *refs {
+						switch x := ref.(type) {
+						case *ssa.Return:
+							if pooled {
+								fail("a slice sharing the backing array of a pooled bytes.Buffer is returned; the next user of the pool overwrites it", x)
+							}
+						case *ssa.Store:
+							if _, local := x.Addr.(*ssa.Alloc); !local && x.Val == v && (pooled || reused) {
+								fail("a slice sharing a bytes.Buffer's backing array is stored while the buffer is reused", x)
+							}
+						case *ssa.MapUpdate:
+							if x.Value == v && (pooled || reused) {
+								fail("a slice sharing a bytes.Buffer's backing array is stored in a map while the buffer is reused", x)
+							}
+						case *ssa.Call:
+							if !(pooled || reused) {
+								continue
+							}
+							if _, n := calleeName(&x.Call); aliasPreserving[n] {
+								continue
+							}
+							for i, a := range x.Call.Args {
+								if a != v {
+									continue
+								}
+								keeps := false
+								if cal := x.Call.StaticCallee(); cal != nil {
+									keeps = retainsParam(w, cal, i, 0)
+								} else {
+									for _, impl := range implementersOf(w, &x.Call) {
+										if retainsParam(w, impl, i+1, 0) {
+											keeps = true
+										}
+									}
+								}
+								if keeps {
+									fail("a slice sharing a bytes.Buffer's backing array is passed to "+a0(x)+", which keeps it, while the buffer is reset and rewritten afterwards (the kept message changes under the holder)", x)
+								}
+							}
+						}
+					}
+				}
+			}
+		}
+	}
+	r.Check(sites > 0 || len(pkgs) > 0, rule, "census", "", fmt.Sprintf("%d bytes.Buffer.Bytes() sites inspected, %d with an escaping alias", sites, bad))
+}
+
+func a0(c *ssa.Call) string {
+	_, n := calleeName(&c.Call)
+	return n
 }
